@@ -43,10 +43,10 @@ def plan(tier):
 def describe(tier):
     return {
         'rule': 'circ: every circuit of F(n,k,FMT) (14 format types at format arities - constants carry two operands; n>=0) and F(n,k,EXT) (3/4-ary gates, '
-        'L*/R* types, constants with 0/1 operands) x outputs (all sequences of length 0..2) x storage orders (creation; every '
-        'order reachable by renaming each gate away and back = all rotations/reversal) -> encode/decode; structural '
+        'L*/R* types, constants with 0/1 operands) x outputs (all sequences of length 0..2) x storage orders (creation; declared input order reversed / rotated; every '
+        'order reachable by renaming each gate away and back) -> encode/decode; structural '
         'comparison up to renaming + truth tables. bits: every bit string of length<=12, every write_number(v,len) '
-        'sequence (len<=10 singles, len<=5 pairs/triples), overflow and read-past-end. dict: every dict with <=2 entries over '
+        'sequence (len<=10 singles, len<=5 pairs/triples), 16/24/32-bit numbers at aligned and unaligned positions (all 16-bit values; structured bytes above), overflow and read-past-end. dict: every dict with <=2 entries over '
         '5 keys x 3 values, every strict prefix and every one-byte extension of its encoding. db: every history of length<=3 '
         'over {add(c,label), add(c), get, save+reopen}. distinct = distinct (kind, outcome class).',
         'bounds': {
@@ -97,6 +97,15 @@ def storage_orders(c_builder, labs_gates):
     """Yield (tag, circuit) for the creation order and for orders obtained by renaming
     gates away and back (a renamed gate moves to the end of the gate map)."""
     yield 'creation', c_builder()
+    c = c_builder()
+    if len(c.inputs) >= 2:
+        # declared input order differs from the order the INPUT gates are stored in
+        c.set_inputs(list(reversed(c.inputs)))
+        yield 'inputs-reversed', c
+        if len(c.inputs) >= 3:
+            c = c_builder()
+            c.order_inputs([c.inputs[1]])
+            yield 'inputs-rotated', c
     k = len(labs_gates)
     if k >= 2:
         for perm in itertools.permutations(range(k)):
@@ -249,6 +258,41 @@ def check_bits(acc):
                 pass
             except Exception as e:  # noqa: BLE001
                 acc.violation('bit_io/overflow-wrong-exception', {'v': v, 'len': ln}, repr(e))
+    # wide numbers at byte-aligned and unaligned positions (16/24/32 bits)
+    def wide_values(ln):
+        if ln == 16:
+            return range(1 << 16)
+        bytes_ = (0x00, 0x01, 0x80, 0xFF, 0x5A)
+        return [sum(b << (8 * i) for i, b in enumerate(bs)) for bs in itertools.product(bytes_, repeat=ln // 8)]
+
+    for ln in (16, 24, 32):
+        for pre in ((), ((0xA5, 8),), ((5, 3),)):
+            for v in wide_values(ln):
+                if ln == 16 and pre and v % 257:
+                    continue
+                acc.states += 1
+                acc.traces += 1
+                acc.transitions += 2
+                seq = list(pre) + [(v, ln), (1, 1)]
+                w = BitWriter()
+                for x, l_ in seq:
+                    w.write_number(x, l_)
+                data = bytes(w)
+                # the format is LSB-first: check the bytes against integer arithmetic
+                total = 0
+                shift = 0
+                for x, l_ in seq:
+                    total |= x << shift
+                    shift += l_
+                want = total.to_bytes((shift + 7) // 8, 'little')
+                if data != want:
+                    acc.violation('bit_io/wide-number-bytes', {'numbers': seq}, f'{data.hex()} expected {want.hex()}')
+                    break
+                r = BitReader(data)
+                if [r.read_number(l_) for _, l_ in seq] != [x for x, _ in seq]:
+                    acc.violation('bit_io/wide-number-roundtrip', {'numbers': seq}, '')
+                    break
+    acc.outcome('bits', 'wide')
     for b in range(256):
         w = BitWriter()
         w.write_byte(b)
